@@ -26,7 +26,7 @@ from eqlmc import VERIF_ROOT
 from eqlmc.worlds import Inst
 
 BATCH = 400
-CASE_TIMEOUT_S = 60
+CASE_TIMEOUT_S = int(__import__("os").environ.get("EQLMC_CASE_TIMEOUT", "60"))
 MAX_REPORTED_SIGNATURES = 12
 
 
